@@ -5,7 +5,7 @@
 set -uo pipefail
 P=$1; N=$2; DIR=$3; RX=$4; shift 4
 CHECKS=${*:-$P}
-SRC=/tmp/seedout/$P
+SRC=${SEEDSRC:-/tmp/seedout}/$P
 WT=/tmp/sv-$P-$N
 export GOFLAGS=-mod=mod GOPROXY=off GOSUMDB=off GOTOOLCHAIN=local
 git -C /repo worktree remove --force $WT 2>/dev/null
